@@ -17,7 +17,6 @@ repo = os.environ.get('HPACK_REPO', '/repo')
 sys.path.insert(0, os.path.join(repo, 'src'))
 import hpack
 from hpack import Encoder, Decoder
-from hpack.huffman import HuffmanEncoder
 from hpack.huffman_table import decode_huffman
 
 NT = 4
@@ -32,12 +31,8 @@ def canon(f):
 
 
 def coder():
-    e = Encoder()
-    hc = getattr(e, 'huffman_coder', None)
-    if hc is not None and hasattr(hc, 'huffman_code_list'):
-        return HuffmanEncoder(list(hc.huffman_code_list), list(hc.huffman_code_list_lengths))
-    from hpack.huffman_constants import REQUEST_CODES, REQUEST_CODES_LENGTH
-    return HuffmanEncoder(REQUEST_CODES, REQUEST_CODES_LENGTH)
+    """a coder of this thread's own: the one a fresh Encoder holds (however the library constructs it)"""
+    return Encoder().huffman_coder
 
 
 def plain_inputs(rnd, t):
